@@ -253,10 +253,13 @@ def translate():
     if not (same([i0.test], [ast.parse('type_ is None').body[0].value]) and len(i0.orelse) == 1 and isinstance(i0.orelse[0], ast.If)
             and same([i0.orelse[0].test], [ast.parse('isinstance(type_, str)').body[0].value]) and not i0.orelse[0].orelse):
         bad('_check_type: None/str branch tests changed')
-    if same(i0.body, parse_stmts('return value == type_')):
-        none_by_eq = True
+    if same(i0.body, parse_stmts('return value is None')) or same(i0.body, parse_stmts('return value is type_')):
+        none_by_eq = True       # on the model's value universe (builtin __eq__) `is None` and `== None` coincide
+    elif same(i0.body, parse_stmts('return value == type_')):
+        bad('_check_type: None branch compares with == (pre-fix shape: an object whose __eq__ answers True, e.g. unittest.mock.ANY, '
+            'is accepted as None)')
     else:
-        bad('_check_type: None branch is not `return value == type_`')
+        bad('_check_type: None branch is not `return value is None`')
     sb = i0.orelse[0].body
     if same(sb, parse_stmts('return any(class_.__name__ == type_ for class_ in type(value).__mro__)')):
         walks = True
